@@ -152,6 +152,60 @@ def rule_funnel(ctx):
                 'is handled differently from the normal path' % (
                     cond, ', '.join(helpers) or norm_src(first.value)[:60]),
                 file=FUNCS_REL, function=w.qualname, line=first.lineno)
+    # the core is evaluated only inside safe_eval: the wrapper itself never
+    # calls it or hands it to a helper
+    rr.instances += 1
+    core = wu.params[0] if wu.params else None
+    se = wu.nested.get('safe_eval')
+    if core is None or se is None:
+        raise AnalysisError('wrap_ufunc: core parameter / safe_eval not found')
+    outside = [n for n in own_nodes(w) if isinstance(n, ast.Name) and
+               n.id == core and isinstance(n.ctx, ast.Load)]
+    inside = [n for n in own_nodes(se) if isinstance(n, ast.Name) and
+              n.id == core]
+    if outside:
+        rr.fail(key_of(wu, 'core used outside safe_eval'),
+                'wrap_ufunc.wrapper refers to the core `%s` itself (line %d): '
+                'it is evaluated, or handed to a helper that evaluates it, '
+                'without the per-element error check, exception mapping and '
+                'non-finite funnel of safe_eval - an array element can differ '
+                'from the scalar result' % (core, outside[0].lineno),
+                file=FUNCS_REL, function=w.qualname, line=outside[0].lineno)
+    elif not inside:
+        rr.fail(key_of(wu, 'safe_eval does not evaluate the core'),
+                'safe_eval no longer calls the core `%s`' % core,
+                file=FUNCS_REL, function=se.qualname, line=se.lineno)
+    else:
+        rr.ok('the core `%s` is referenced only inside safe_eval' % core,
+              '%s:%d' % (FUNCS_REL, se.lineno))
+    # every definition of the result is built on safe_eval (or re-views it)
+    rr.instances += 1
+    bad_def = None
+    for n in own_nodes(w):
+        if not (isinstance(n, ast.Assign) and any(
+                isinstance(t, ast.Name) and t.id == resvar for t in n.targets)):
+            continue
+        arms = [n.value]
+        while any(isinstance(a, ast.IfExp) for a in arms):
+            arms = [b for a in arms for b in (
+                (a.body, a.orelse) if isinstance(a, ast.IfExp) else (a,))]
+        for a in arms:
+            names = {x.id for x in ast.walk(a) if isinstance(x, ast.Name)}
+            if isinstance(a, ast.Constant) and a.value is None:
+                continue
+            if names & carriers or resvar in names:
+                continue
+            bad_def = bad_def or (n, a)
+    if bad_def:
+        n, a = bad_def
+        rr.fail(key_of(wu, 'result defined without safe_eval'),
+                'wrap_ufunc.wrapper assigns `%s = %s`: a result that is not '
+                'built from safe_eval (directly or through numpy lifting) nor '
+                'a re-view of the previous result' % (resvar, norm_src(a)[:70]),
+                file=FUNCS_REL, function=w.qualname, line=n.lineno)
+    else:
+        rr.ok('every assignment to `%s` is built on safe_eval or re-views the '
+              'result' % resvar, FUNCS_REL)
     # every res is viewed as otype
     rr.instances += 1
     views = [n for n in own_nodes(w) if isinstance(n, ast.Call) and
